@@ -514,8 +514,8 @@ def run(prop, tier, seed):
     if not okx:
         problems.append("model: T/Extract.vo does not build against the regenerated coq/Gen (model cannot be evaluated): " + ", ".join(vlib.coq_failed_files(xlog)))
         # the monitors are specification-level: keep searching the real crate with the last driver that built
-        last = os.path.join(vlib.CACHE, "bin", "t_driver")
-        driver = last if os.path.exists(last) else None
+        last = [p_ for p_ in (vlib.driver_path("t_driver"), os.path.join(vlib.CACHE, "bin", "t_driver")) if os.path.exists(p_)]
+        driver = last[0] if last else None
         model_ok = False
     else:
         driver = vlib.ocaml_driver("t_driver", "t_model.ml", "t_driver.ml")
@@ -632,6 +632,12 @@ def run(prop, tier, seed):
         vlib.violation(prop, path, no_input=True)
         ev.violations = 1
         rc = 1
+    honest = {}
+    if tier == "thorough" and prop in ("C10", "C19") and not reported:
+        honest = honest_wrap_replays(prop, bins)
+        for k, (still, text) in honest.items():
+            if still:
+                known_seen.setdefault(k + "-honest", text)
     for c, what in sorted(known_seen.items()):
         vlib.known_finding(prop, what)
     # evidence
@@ -645,13 +651,34 @@ def run(prop, tier, seed):
         "traces_validated_against_impl": outcome.cases, "ops": outcome.ops, "panics_observed": outcome.panics,
         "disagreements": len(outcome.disagree), "monitor_failures": {k: len(v) for k, v in outcome.monfail.items()},
         "distribution": dist, "builds": [b for b, _ in bins],
-        "samples": sample_cases(all_cases), "proof_problems": problems, "known_findings_reproduced": sorted(known_seen),
+        "samples": sample_cases(all_cases), "proof_problems": problems, "honest_wrap_replays": {k: v[1] for k, v in honest.items()}, "known_findings_reproduced": sorted(known_seen),
         "explanation": "theorems about the Gallina model of src/timers/mod.rs (coq/T) + translator-regenerated arithmetic (coq/Gen) + correspondence of results and full internal state after every op, debug and release builds",
     }
     ev.assumptions = ["instants < 2^62 ns from t0; fewer than 2^31 timers pending", "histories outside the known classes GenWrap (F2) / SeqWrap (F3) / NearBoundaryVar (F6)",
                       "BTreeMap, Vec, Instant/Duration of std are modelled (sorted list / list / integers)"]
     ev.write()
     return rc
+
+
+def honest_wrap_replays(prop, bins):
+    """Thorough tier: the real number of add/delete cycles through the public API, no hooks (release build)."""
+    rel = [b for n, b in bins if n == "release"][0]
+    binp = os.path.join(os.path.dirname(rel), "wrap_replay")
+    res = {}
+    todo = {"C10": ["f2"], "C19": ["f3"]}[prop]
+    procs = [(w, subprocess.Popen([binp, w], stdout=subprocess.PIPE, text=True)) for w in todo]
+    for w, pr in procs:
+        try:
+            out, _ = pr.communicate(timeout=1500)
+        except subprocess.TimeoutExpired:
+            pr.kill()
+            out = ""
+        out = out.strip()
+        if w == "f2":
+            res["GenWrap"] = ("stale_key_active=true" in out, "class=GenWrap honest replay without hooks (2^32-1 frees of one slot): " + out)
+        else:
+            res["SeqWrap"] = ("order=B,A" in out, "class=SeqWrap honest replay without hooks (2^31-1 timer_add calls): " + out)
+    return res
 
 
 def sample_cases(all_cases):
